@@ -470,6 +470,21 @@ example : (match deleteWithFksV cycleFks 5
     | .ok db => some (db 0)
     | .error _ => none) = some [[.int 3, .null], [.int 4, .int 3]] := by decide
 
+/-! ### referential actions under ROLLBACK TO SAVEPOINT -/
+
+/-- Undo after a referential action = identity on the child table (as a multiset): for every child
+table and every list of rewritten positions (ON UPDATE CASCADE / SET NULL / SET DEFAULT, ON DELETE SET NULL
+/ SET DEFAULT all go through `update_row_recorded`), undoing the recorded `(old, new)` pairs newest first
+succeeds and gives back the rows that were there at the savepoint. -/
+theorem C12_referential_action_undo_restores (rows : List Row) (us : List (Nat × Row)) :
+    ∃ r, undoAll (applyRecorded rows us).1 (applyRecorded rows us).2 = some r ∧ r.Perm rows :=
+  undo_applyRecorded us rows
+
+/-- … which depends on `old` being read before the write: an entry `(new, new)` (old read after the
+write) undoes nothing — child 5→1 cascaded to 5→10 stays at 10 -/
+example : undoAll [[.int 5, .int 10]] [([.int 5, .int 10], [.int 5, .int 10])] = some [[.int 5, .int 10]] ∧
+    (applyRecorded [[.int 5, .int 1]] [(0, [.int 5, .int 10])]).2 = [([.int 5, .int 1], [.int 5, .int 10])] := by decide
+
 /-! ### TRUNCATE … CASCADE -/
 
 /-- `get_fk_children` looks at *all* foreign keys of a table, not at the first one -/
